@@ -110,7 +110,7 @@ Proof.
       destruct Hi as [Hi|[]]. discriminate.
 Qed.
 
-Lemma calls_Q_init progs : Forall (Forall Q) progs -> calls_Q (init_config 1 progs).
+Lemma calls_Q_init z progs : Forall (Forall Q) progs -> calls_Q (init_config_z [z] progs).
 Proof.
   intros HQ. split; [|intros t c0 []].
   intros t th. cbn. rewrite nth_error_map. destruct (nth_error progs t) as [p|] eqn:E; [|discriminate]. cbn.
@@ -130,9 +130,9 @@ Qed.
 End HistCalls.
 
 (* ---- linearizable to a set ---- *)
-Theorem set_linearizable_contents progs sched :
+Theorem set_linearizable_contents z progs sched :
   Forall (Forall set_frag) progs ->
-  let c := run_schedule (init_config 1 progs) sched in
+  let c := run_schedule (init_config_z [z] progs) sched in
   exists (s : gset Z) (P : lpend),
     poss set_spec ∅ (rev (map_hist c)) s P /\
     (forall v, v ∈ s <-> abs_lookup (st0 c) v <> None) /\
@@ -141,8 +141,8 @@ Proof.
   intros Hfr c.
   assert (Hlf : Forall (Forall lin_frag) progs).
   { eapply List.Forall_impl; [|exact Hfr]. intros p. apply List.Forall_impl. apply set_frag_lin. }
-  destruct (run_all set_frag (init_config 1 progs) sched _ _ (Inv_init 1 progs) (Inv2_init 1 progs)
-              (Inv4_init progs Hlf) (calls_Q_init set_frag progs Hfr)) as (seen & a & HI4 & [_ HH]). fold c in HI4, HH.
+  destruct (run_all set_frag (init_config_z [z] progs) sched _ _ (Inv_init_z [z] progs) (Inv2_init_z [z] progs)
+              (Inv4_init z progs Hlf) (calls_Q_init set_frag z progs Hfr)) as (seen & a & HI4 & [_ HH]). fold c in HI4, HH.
   destruct (i4_fam _ _ _ HI4 (fun _ => None)) as (P & Hp & HP); [intros t x; discriminate|].
   destruct (sim_poss _ _ _ Hp) as (s & R & Hs & _).
   { intros t c0 Hin. apply in_rev in Hin. unfold map_hist in Hin. apply in_map_iff in Hin as ([t1 c1|t1 r1] & E & Hin); [|discriminate].
@@ -157,11 +157,11 @@ Proof.
     unfold frame_of. destruct (t_stack th); [|discriminate]. destruct (t_fresh th); reflexivity.
 Qed.
 
-Theorem set_linearizable progs sched :
+Theorem set_linearizable z progs sched :
   Forall (Forall set_frag) progs ->
-  linearizable set_spec ∅ (map_hist (run_schedule (init_config 1 progs) sched)).
+  linearizable set_spec ∅ (map_hist (run_schedule (init_config_z [z] progs) sched)).
 Proof.
-  intros Hfr. destruct (set_linearizable_contents progs sched Hfr) as (s & P & Hp & _). exists s, P. exact Hp.
+  intros Hfr. destruct (set_linearizable_contents z progs sched Hfr) as (s & P & Hp & _). exists s, P. exact Hp.
 Qed.
 
 (* ================================================================== *)
@@ -267,15 +267,15 @@ Proof.
     + rewrite final_app, F. exact F1.
 Qed.
 
-Lemma hist_set_frag progs sched :
+Lemma hist_set_frag z progs sched :
   Forall (Forall set_frag) progs ->
-  forall t c0, In (HInv t c0) (map_hist (run_schedule (init_config 1 progs) sched)) -> set_frag c0.
+  forall t c0, In (HInv t c0) (map_hist (run_schedule (init_config_z [z] progs) sched)) -> set_frag c0.
 Proof.
   intros Hfr t c0 Hin.
   assert (Hlf : Forall (Forall lin_frag) progs).
   { eapply List.Forall_impl; [|exact Hfr]. intros p. apply List.Forall_impl. apply set_frag_lin. }
-  destruct (run_all set_frag (init_config 1 progs) sched _ _ (Inv_init 1 progs) (Inv2_init 1 progs)
-              (Inv4_init progs Hlf) (calls_Q_init set_frag progs Hfr)) as (seen & a & _ & [_ HH]).
+  destruct (run_all set_frag (init_config_z [z] progs) sched _ _ (Inv_init_z [z] progs) (Inv2_init_z [z] progs)
+              (Inv4_init z progs Hlf) (calls_Q_init set_frag z progs Hfr)) as (seen & a & _ & [_ HH]).
   unfold map_hist in Hin. apply in_map_iff in Hin as ([t1 c1|t1 r1] & E & Hin); [|discriminate].
   injection E as -> ->. eapply HH; eauto.
 Qed.
@@ -287,9 +287,9 @@ Qed.
    has in [o]. Hence (SetSpec.seq_alternation) for every value the successful
    Adds and Removes alternate in that order, starting with an Add, and their
    balance is the value's membership. *)
-Theorem set_atomic progs sched :
+Theorem set_atomic z progs sched :
   Forall (Forall set_frag) progs ->
-  let c := run_schedule (init_config 1 progs) sched in
+  let c := run_schedule (init_config_z [z] progs) sched in
   exists (s : gset Z) (P : lpend) (o : list (nat * call * res)),
     poss_ord set_spec ∅ (rev (map_hist c)) s P o /\
     (forall v, v ∈ s <-> abs_lookup (st0 c) v <> None) /\
@@ -302,11 +302,11 @@ Theorem set_atomic progs sched :
                if bool_decide (v ∈ s) then 1 else 0)%Z.
 Proof.
   intros Hfr c.
-  destruct (set_linearizable_contents progs sched Hfr) as (s & P & Hp & Hmem & Hfin). fold c in Hp, Hmem, Hfin.
+  destruct (set_linearizable_contents z progs sched Hfr) as (s & P & Hp & Hmem & Hfin). fold c in Hp, Hmem, Hfin.
   destruct (poss_ord_of_poss _ _ _ _ _ Hp) as [o Ho].
   destruct (ord_links _ _ _ _ _ _ Ho) as (_ & I2 & I3).
   assert (Hof : forall t c0 r, In (t, c0, r) o -> set_frag c0).
-  { intros t c0 r Hi. apply I3 in Hi. apply (proj2 (in_rev _ _)) in Hi. eapply (hist_set_frag progs sched Hfr); eauto. }
+  { intros t c0 r Hi. apply I3 in Hi. apply (proj2 (in_rev _ _)) in Hi. eapply (hist_set_frag z progs sched Hfr); eauto. }
   destruct (ord_legal _ _ _ _ Ho Hof) as [L F].
   exists s, P, o. split; [exact Ho|]. split; [exact Hmem|]. split; [exact Hfin|].
   split; [intros t r Hi; apply I2; exact (proj1 (in_rev _ _) Hi)|].
